@@ -48,9 +48,20 @@ func (v *Verifier) verifyFunc(fn *ssa.Function, c *Contract) (err error) {
 		}
 	}
 	if len(fn.FreeVars) > 0 {
-		for _, fv := range fn.FreeVars {
-			t := Var("fv$"+fv.Name(), SInt)
+		for i, fv := range fn.FreeVars {
+			name := fv.Name()
+			if name == "" {
+				name = fmt.Sprintf("#%d", i) // a holder the compiler made (unnamed result of the enclosing function)
+			}
+			t := Var("fv$"+name, SInt)
 			st.assume(Gt(t, IntLit(0)))
+			notGlobalRef[t] = true
+			// captured variables are different variables
+			for j, u := range fr.bindings {
+				if sortOf(elemType(fn.FreeVars[j].Type())) == sortOf(elemType(fv.Type())) {
+					st.assume(Neq(t, u))
+				}
+			}
 			fr.bindings = append(fr.bindings, t)
 		}
 	}
